@@ -107,66 +107,99 @@ func (c *Ctx) widens(src, dst *types.Basic) bool {
 	}
 }
 
+// typeCasePaths runs a type-switching function and groups its paths by the type the operand was found to have (nil type = the nil case,
+// "" key = no test succeeded).
+type casePath struct {
+	T      types.Type
+	IsNil  bool
+	None   bool
+	Path   *Path
+	Assert Term // the operand seen as T
+}
+
+func (c *Ctx) typeCasePaths(fd *ast.FuncDecl, x *SX, par types.Object) ([]casePath, string) {
+	paths := x.Run(fd)
+	var out []casePath
+	for _, p := range paths {
+		if p.Why != "" {
+			return nil, p.Why
+		}
+		cp := casePath{Path: p, None: true}
+		for _, cd := range p.Conds() {
+			op, T, isTest := kindTestOf(cd.T)
+			if !isTest || !isParamTerm(op, par) {
+				return nil, "decision that is not a type test of the operand: " + c.termStr(cd.T)
+			}
+			if cd.Truth {
+				if !cp.None {
+					return nil, "two type tests succeed on one path"
+				}
+				cp.None = false
+				cp.T = T
+				cp.IsNil = T == nil
+				cp.Assert = TAssert{op, T}
+			}
+		}
+		out = append(out, cp)
+	}
+	return out, ""
+}
+
 func c12R1(c *Ctx) {
 	fd := c.NeedDecl("C12.R1", "parseVal")
 	if fd == nil {
 		return
 	}
-	ts := findTypeSwitch(fd.Body)
-	if ts == nil {
-		c.Ob("C12.R1", "parseVal", fd.Pos()).Undecided("no type switch")
+	par := soleParam(c, fd)
+	x := c.NewSX()
+	delete(x.NoInline, "parseVal")
+	x.budget = 200000
+	cps, why := c.typeCasePaths(fd, x, par)
+	if why != "" || par == nil {
+		c.Ob("C12.R1", "parseVal", fd.Pos()).Undecided("body outside the path vocabulary: %s", why)
 		return
 	}
-	bound := typeSwitchVar(c, ts)
 	arms := 0
-	hasDefault := false
 	seenKinds := map[string]int{}
-	for _, cl := range ts.Body.List {
-		cc := cl.(*ast.CaseClause)
-		if cc.List == nil {
+	seenT := map[string]bool{}
+	hasDefault := false
+	for _, cp := range cps {
+		p := cp.Path
+		if cp.None {
 			hasDefault = true
-			ob := c.Ob("C12.R1", "parseVal/default", cc.Pos())
-			ob.Check(blockPanicsOnly(c, cc.Body), "default arm panics and returns nothing: unsupported Go types are rejected", "default arm of parseVal does not simply panic: a value of an unsupported type could be stored")
+			c.Ob("C12.R1", "parseVal/default", posOfNode(p.Node)).Check(p.End == "panic" && len(p.Effects()) == 0, "a value of any other Go type panics and nothing is stored", "a value of an unsupported Go type does not simply panic: it could be stored un-normalised")
 			continue
 		}
-		if len(cc.List) != 1 {
-			c.Ob("C12.R1", "parseVal/multi-type-arm", cc.Pos()).Undecided("arm lists several types; the bound variable keeps the interface type")
-			continue
-		}
-		arms++
-		var T types.Type
 		tname := "nil"
-		if !c.isNil(cc.List[0]) {
-			T = c.typeOf(cc.List[0])
-			tname = shortType(T)
+		if !cp.IsNil {
+			tname = shortType(cp.T)
 		}
-		ob := c.Ob("C12.R1", "parseVal/case "+tname, cc.Pos())
-		if len(cc.Body) != 1 {
-			ob.Undecided("arm body is not a single return")
+		if seenT[tname] {
+			continue // the same case reached on a second path
+		}
+		seenT[tname] = true
+		arms++
+		ob := c.Ob("C12.R1", "parseVal/case "+tname, posOfNode(p.Node))
+		if p.End != "return" || len(p.Vals) != 1 {
+			ob.Fail("arm does not return a field")
 			continue
 		}
-		ret, ok := cc.Body[0].(*ast.ReturnStmt)
-		if !ok || len(ret.Results) != 1 {
-			ob.Undecided("arm body is not a single return")
+		res := p.Vals[0]
+		opnd := func(t Term) bool { return sameTerm(t, cp.Assert) || sameTerm(t, TProj{cp.Assert, 0}) }
+		if !cp.IsNil && c.Inv().ContByIface(cp.T) != nil {
+			ob.Check(opnd(res) && len(p.Effects()) == 0, "container operand is stored as is (kind "+c.kindOfType(cp.T)+")", "container arm does not return its operand")
+			seenKinds[c.kindOfType(cp.T)]++
 			continue
 		}
-		res := unparen(ret.Results[0])
-		// containers pass through
-		if T != nil && c.Inv().ContByIface(T) != nil {
-			ob.Check(isSwitchVar(c, res, bound, cc), "container operand is stored as is (kind "+c.kindOfType(T)+")", "container arm does not return its operand")
-			seenKinds[c.kindOfType(T)]++
-			continue
-		}
-		call, ok := res.(*ast.CallExpr)
-		if !ok {
+		call, ok := res.(TCall)
+		if !ok || call.Fun == nil {
 			ob.Fail("arm does not return a constructor call")
 			continue
 		}
-		callee := c.callee(call)
-		if T != nil {
-			switch u := T.Underlying().(type) {
+		if !cp.IsNil {
+			switch u := cp.T.Underlying().(type) {
 			case *types.Map:
-				good := callee != nil && callee.Name() == "NewObjectFrom" && callee.Pkg() == c.Types && len(call.Args) == 1 && isSwitchVar(c, call.Args[0], bound, cc)
+				good := call.Fun.Name() == "NewObjectFrom" && call.Fun.Pkg() == c.Types && len(call.Args) == 1 && opnd(call.Args[0])
 				if b, ok := u.Key().(*types.Basic); !ok || b.Kind() != types.String {
 					good = false
 				}
@@ -174,19 +207,18 @@ func c12R1(c *Ctx) {
 				seenKinds["object"]++
 				continue
 			case *types.Slice:
-				good := callee != nil && callee.Name() == "NewListFrom" && callee.Pkg() == c.Types && len(call.Args) == 1 && isSwitchVar(c, call.Args[0], bound, cc)
-				ob.Check(good, "slice flavour becomes a fresh List via NewListFrom(operand)", "slice arm does not build NewListFrom(operand)")
+				ob.Check(call.Fun.Name() == "NewListFrom" && call.Fun.Pkg() == c.Types && len(call.Args) == 1 && opnd(call.Args[0]), "slice flavour becomes a fresh List via NewListFrom(operand)", "slice arm does not build NewListFrom(operand)")
 				seenKinds["list"]++
 				continue
 			}
 		}
-		kind, isCtor := c.wrapperCtor(callee)
+		kind, isCtor := c.wrapperCtor(call.Fun)
 		if !isCtor {
 			ob.Fail("arm does not call a wrapper constructor (a function building exactly one scalar wrapper from its parameter)")
 			continue
 		}
 		seenKinds[kind]++
-		if T == nil {
+		if cp.IsNil {
 			ob.Check(kind == "nil" && len(call.Args) == 0, "nil becomes the nil wrapper", "nil arm builds a "+kind+" wrapper")
 			continue
 		}
@@ -194,32 +226,26 @@ func c12R1(c *Ctx) {
 			ob.Fail("constructor call has %d arguments", len(call.Args))
 			continue
 		}
-		// conversion chain from the switch variable
-		arg := unparen(call.Args[0])
-		cur := arg
+		// conversion chain from the operand
 		var chain []types.Type
+		cur := call.Args[0]
 		for {
-			if isSwitchVar(c, cur, bound, cc) {
+			if opnd(cur) {
 				break
 			}
-			ce, ok := cur.(*ast.CallExpr)
-			if !ok || len(ce.Args) != 1 {
+			cv, ok := cur.(TConv)
+			if !ok {
 				cur = nil
 				break
 			}
-			tv, ok := c.Info.Types[ce.Fun]
-			if !ok || !tv.IsType() {
-				cur = nil
-				break
-			}
-			chain = append([]types.Type{tv.Type}, chain...)
-			cur = unparen(ce.Args[0])
+			chain = append([]types.Type{cv.To}, chain...)
+			cur = cv.X
 		}
 		if cur == nil {
 			ob.Fail("constructor argument is not the operand under a chain of conversions")
 			continue
 		}
-		tb, isBasic := T.Underlying().(*types.Basic)
+		tb, isBasic := cp.T.Underlying().(*types.Basic)
 		if !isBasic {
 			ob.Fail("scalar arm for non-basic type %s", tname)
 			continue
@@ -245,7 +271,7 @@ func c12R1(c *Ctx) {
 				last := i == len(chain)-1
 				if last && db.Kind() == types.Int {
 					src = db
-					continue // final int(...): value-preserving whenever representable (the property's proviso)
+					continue
 				}
 				if !c.widens(src, db) {
 					good, why = false, "conversion "+shortType(src)+" -> "+shortType(db)+" does not preserve every value"
@@ -287,14 +313,14 @@ func c12R1(c *Ctx) {
 	}
 	c.R.Floor("C12.R1", arms, 31)
 	if !hasDefault {
-		c.Ob("C12.R1", "parseVal/default", ts.Pos()).Fail("parseVal has no default arm: an unsupported type would yield a nil field instead of a panic")
+		c.Ob("C12.R1", "parseVal/default", fd.Pos()).Fail("parseVal has no path for unsupported types")
 	}
 	var ks []string
 	for k := range seenKinds {
 		ks = append(ks, k)
 	}
 	sort.Strings(ks)
-	c.Ob("C12.R1", "parseVal/kinds", ts.Pos()).Check(len(ks) == 7, "arms cover exactly the seven kinds "+sprint(ks), "arms cover kinds "+sprint(ks)+", expected seven")
+	c.Ob("C12.R1", "parseVal/kinds", fd.Pos()).Check(len(ks) == 7, "arms cover exactly the seven kinds "+sprint(ks), "arms cover kinds "+sprint(ks)+", expected seven")
 }
 
 func blockPanicsOnly(c *Ctx, body []ast.Stmt) bool {
@@ -330,9 +356,22 @@ func c12R2(c *Ctx) {
 	if pv == nil {
 		return
 	}
-	pts := findTypeSwitch(pv.Body)
-	if pts == nil {
+	pvx := c.NewSX()
+	delete(pvx.NoInline, "parseVal")
+	pvx.budget = 200000
+	pcps, why := c.typeCasePaths(pv, pvx, soleParam(c, pv))
+	if why != "" {
+		c.Ob("C12.R2", "parseVal", pv.Pos()).Undecided("%s", why)
 		return
+	}
+	flavours := func(cps []casePath, pred func(types.Type) bool) []string {
+		set := map[string]bool{}
+		for _, cp := range cps {
+			if !cp.None && !cp.IsNil && pred(cp.T) {
+				set[shortType(cp.T)] = true
+			}
+		}
+		return keysOf(set)
 	}
 	isSlice := func(t types.Type) bool { _, ok := t.Underlying().(*types.Slice); return ok }
 	isMap := func(t types.Type) bool { _, ok := t.Underlying().(*types.Map); return ok }
@@ -347,66 +386,107 @@ func c12R2(c *Ctx) {
 		if fd == nil {
 			continue
 		}
-		ts := findTypeSwitch(fd.Body)
-		if ts == nil {
-			c.Ob("C12.R2", spec.ctor, fd.Pos()).Undecided("no type switch")
+		par := soleParam(c, fd)
+		cps, why := c.typeCasePaths(fd, c.NewSX(), par)
+		if why != "" {
+			c.Ob("C12.R2", spec.ctor, fd.Pos()).Undecided("body outside the path vocabulary: %s", why)
 			continue
 		}
-		a, b := caseTypes(c, pts, spec.pred), caseTypes(c, ts, func(types.Type) bool { return true })
-		c.Ob("C12.R2", spec.ctor+"/flavours", ts.Pos()).Check(strings.Join(a, ",") == strings.Join(b, ",") && len(a) > 0,
+		a, b := flavours(pcps, spec.pred), flavours(cps, func(types.Type) bool { return true })
+		c.Ob("C12.R2", spec.ctor+"/flavours", fd.Pos()).Check(strings.Join(a, ",") == strings.Join(b, ",") && len(a) > 0,
 			"accepts exactly the flavours parseVal forwards: "+strings.Join(a, ", "), "parseVal forwards ["+strings.Join(a, ", ")+"] but "+spec.ctor+" handles ["+strings.Join(b, ", ")+"]")
-		bound := typeSwitchVar(c, ts)
 		hasDefault := false
-		for _, cl := range ts.Body.List {
-			cc := cl.(*ast.CaseClause)
-			if cc.List == nil {
+		done := map[string]bool{}
+		for _, cp := range cps {
+			p := cp.Path
+			if cp.None {
 				hasDefault = true
-				c.Ob("C12.R2", spec.ctor+"/default", cc.Pos()).Check(blockPanicsOnly(c, cc.Body), "default panics", "default arm does not simply panic")
+				c.Ob("C12.R2", spec.ctor+"/default", posOfNode(p.Node)).Check(p.End == "panic", "an unsupported flavour panics", "an unsupported flavour does not panic (a nil container would be returned)")
 				continue
 			}
+			tname := shortType(cp.T)
+			if done[tname] {
+				continue
+			}
+			done[tname] = true
 			n++
-			tname := shortType(c.typeOf(cc.List[0]))
-			ob := c.Ob("C12.R2", spec.ctor+"/case "+tname, cc.Pos())
-			// one range loop over the switch variable, no early exit, body = single Add(value) / Set(key, value) on the result
-			var loops []*ast.RangeStmt
-			for _, s := range cc.Body {
-				if rs, ok := s.(*ast.RangeStmt); ok {
-					loops = append(loops, rs)
+			ob := c.Ob("C12.R2", spec.ctor+"/case "+tname, posOfNode(p.Node))
+			var loop *LoopRec
+			nLoop := 0
+			bad := ""
+			for _, s := range p.Effects() {
+				switch s.Kind {
+				case "loop":
+					loop = s.Loop
+					nLoop++
+				case "call":
+					if s.Call != nil && s.Call.Fun != nil && s.Call.Fun.Name() == "Init" {
+						continue
+					}
+					bad = "unexpected effect " + c.stepStr(s)
+				case "store":
+					// only the installation of a spine into the container being built
+					base := s.LHS
+					for {
+						if sel, ok := base.(TSel); ok {
+							base = sel.X
+							continue
+						}
+						break
+					}
+					if p.End != "return" || len(p.Vals) != 1 || !sameContainer(base, p.Vals[0]) {
+						bad = "store outside the container being built: " + c.stepStr(s)
+					}
 				}
 			}
-			if len(loops) != 1 || !isSwitchVar(c, loops[0].X, bound, cc) {
-				ob.Fail("arm does not range exactly once over its operand")
+			if bad != "" || nLoop != 1 || p.End != "return" || len(p.Vals) != 1 {
+				ob.Fail("arm is not: fresh container; one loop over the operand; return it (%s)", bad)
 				continue
 			}
-			rs := loops[0]
-			if why := loopHasEarlyExit(rs); why != "" {
-				ob.Fail("%s in the element-wise copy loop", why)
+			result := p.Vals[0]
+			over := loop.Over
+			if loop.Range == nil || !(sameTerm(over, cp.Assert) || sameTerm(over, TProj{cp.Assert, 0})) {
+				ob.Fail("the loop does not range over the operand")
 				continue
 			}
-			good := len(rs.Body.List) == 1
-			var call *ast.CallExpr
-			if good {
-				if es, ok := rs.Body.List[0].(*ast.ExprStmt); ok {
-					call, _ = es.X.(*ast.CallExpr)
-				}
-				good = call != nil
+			if len(loop.Iter) != 1 || len(loop.Iter[0].Conds()) != 0 || len(loop.Iter[0].Effects()) != 1 || (loop.Iter[0].End != "fall" && loop.Iter[0].End != "continue") {
+				ob.Fail("the element-wise copy loop is not one unconditional %s per entry", spec.verb)
+				continue
 			}
+			s := loop.Iter[0].Effects()[0]
+			good := s.Kind == "call" && s.Call != nil && s.Call.Fun != nil && s.Call.Fun.Name() == spec.verb && s.Call.Recv != nil && sameContainer(s.Call.Recv, result)
 			if good {
-				callee := c.callee(call)
-				good = callee != nil && callee.Name() == spec.verb
+				args := unpack(s.Call.Args)
 				if spec.list {
-					good = good && len(call.Args) == 1 && rs.Value != nil && c.sameExpr(call.Args[0], rs.Value)
+					good = len(args) == 1 && loop.Value != nil && isParamTerm(args[0], loop.Value)
 				} else {
-					good = good && len(call.Args) == 2 && rs.Key != nil && rs.Value != nil && c.sameExpr(call.Args[0], rs.Key) && c.sameExpr(call.Args[1], rs.Value)
+					good = len(args) == 2 && loop.Key != nil && loop.Value != nil && isParamTerm(args[0], loop.Key) && isParamTerm(args[1], loop.Value)
 				}
 			}
-			ob.Check(good, "copies element-wise: one "+spec.verb+" per entry of the operand, in range order", "loop body is not exactly one "+spec.verb+" of the range entry")
+			ob.Check(good, "copies element-wise: one "+spec.verb+" per entry of the operand, in range order, into the container that is returned", "loop body is not exactly one "+spec.verb+" of the range entry on the result")
 		}
 		if !hasDefault {
-			c.Ob("C12.R2", spec.ctor+"/default", ts.Pos()).Fail("no default arm: an unsupported flavour yields a nil container")
+			c.Ob("C12.R2", spec.ctor+"/default", fd.Pos()).Fail("no path for unsupported flavours")
 		}
 	}
 	c.R.Floor("C12.R2", n, 14)
+}
+
+// sameContainer: two terms denote the same freshly built container (a literal's address seen through an interface variable).
+func sameContainer(a, b Term) bool {
+	strip := func(t Term) Term {
+		for {
+			switch x := t.(type) {
+			case TDeref:
+				t = x.X
+				continue
+			case TLoop:
+				return TVar{x.Obj}
+			}
+			return t
+		}
+	}
+	return key(strip(a)) == key(strip(b))
 }
 
 func typeConstKind(name string) string {
